@@ -45,3 +45,10 @@ mut("handler-client-from-path", ["C09", "C16"], [(GCV, ".get_child_version(clien
 mut("scope-update-all-clients", ["C09"], [(SQL, "               versions_since_snapshot = versions_since_snapshot + 1\n             WHERE client_id = ?\",\n                params![StoredUuid(version_id), StoredUuid(self.client_id),],",
      "               versions_since_snapshot = versions_since_snapshot + 1\n             WHERE client_id = ? OR latest_version_id = ?\",\n                params![StoredUuid(version_id), StoredUuid(self.client_id), StoredUuid(parent_version_id)],")],
     "S-SCOPE", "update not scoped to the client only")
+
+# ---- D1 revert (the defect repaired by 0cc2468 must be reported again if it returns)
+mut("d1-revert", ["C01", "C03", "C07"], [(AV, "                if txn.get_client().map_err(failure_to_ise)?.is_none() {\n                    txn.new_client(NIL_VERSION_ID).map_err(failure_to_ise)?;\n                    txn.commit().map_err(failure_to_ise)?;\n                }",
+     "                txn.new_client(NIL_VERSION_ID).map_err(failure_to_ise)?;\n                txn.commit().map_err(failure_to_ise)?;")],
+    "S-NEWCLIENT", "client creation without absence re-check (original defect D1)")
+mut("d1-inverted-check", ["C01", "C03", "C07"], [(AV, "if txn.get_client().map_err(failure_to_ise)?.is_none() {", "if txn.get_client().map_err(failure_to_ise)?.is_some() {")],
+    "S-NEWCLIENT", "creation when the client exists")
